@@ -24,6 +24,14 @@ NOT_APPLICABLE = {
 
 # id -> (technique, level text, level note, design ref)
 CLAIMS = {
+    'C11': ('def-use / must-pass-through rules on zip alignments (flow), alpha-insensitive AST patterns for the '
+            'representative coherence, reaching-use lint for the raw dipole arguments',
+            'Static, exhaustive over the dipole population and its consumers: decides that every populated dipole is the '
+            'symmetric projection on the representative transported by the operation that maps the representative onto the '
+            'member, that bases/operations refer to one representative, that elastodiffusion/losstensors consume only the '
+            'populated lists addressed by site, and that the projection has the right shape. That the outputs equal '
+            'derivatives is numerical and not decided.',
+            'trusts CPython ast', 'DESIGN.md §4 C11'),
     'C06': ('table agreement (keys vs parameters), neutral-default lint, omega-family provenance of the host-copy loops',
             'Static, exhaustive over maketracerpreene: decides that the generator returns exactly the missing '
             'preene2betafree parameters, that solute and interaction data are neutral with the documented sizes, and '
